@@ -285,17 +285,18 @@ def plan(pid: str, tier: str, seed: int) -> dict:
                + ([] if quick else [(n, {"AnyOrder": "TRUE", "MaxCancels": 1}, {"depth": 70}) for n in ("diamond", "failbranch")]),
         )
     if pid == "C18":
-        progs = [PR.by_name(n) for n in ("susp", "suspmulti", "suspside")]
+        progs = [PR.by_name(n) for n in ("susp", "suspmulti", "suspside", "susp2")]
         return dict(
             progs=progs, props=["C18_StaysSuspended", "C18_NeverLost", "C18_NotSittingOnSignal", "C18_ResumeOncePerSignal",
-                                "C18_TransientNoEffect", "C18_SawSignalOnlyIfDelivered", "C06_Legal"],
+                                "C18_TransientNoEffect", "C18_SawSignalOnlyIfDelivered", "C18_ConsumedOnce", "C06_Legal"],
             jobs=lambda refs: [
                 # the signal (persistent / transient, one or two of them) before every delivery step, in order and shuffled
-                {"kind": "schedule", "prog": p, "seeds": [seed * 1000 + at * 4 + v],
+                {"kind": "schedule", "prog": p, "seeds": [seed * 1000 + at * 8 + v],
                  "opts": {"p_withhold": 0.1 if shuf else 0.0, "signal_at": at, "signal_pers": pers, "signals": ns,
                           "fifo_after": -1 if shuf else 0}}
                 for p in progs for at in range(1, refs[p["name"]]["steps"] + 8)
-                for v, (pers, ns, shuf) in enumerate([(True, 1, False), (False, 1, False), (True, 2, True), (False, 1, True)])
+                for v, (pers, ns, shuf) in enumerate([(True, 1, False), (False, 1, False), (True, 2, True), (False, 1, True),
+                                                      (True, 2, False), (True, 3, True)])
             ] + [   # every crash point of the suspend / resume steps, signal early / late
                 {"kind": "signal-crash", "prog": p, "pers": True, "late_expire": le,
                  "cases": [(sa, c) for c in cs]}
